@@ -6,10 +6,17 @@
  * include/libast.h) are in the generated file c20_uses.h.
  *
  * usage: probe <cells>      cells: one line "<index> <macro> <r> <silent> <name> <cond>" per cell
- * output per cell:          "#<index> out=<-|d|w|e|f...> cond=N args=N val=N mark=N ctl=<fall|ret|retv|exit>"
+ *                           cond: bit 0 = value of the condition argument; bit 1 = the second variant of the
+ *                           use, whose condition / argument list is full of text that looks like printf
+ *                           conversions ("%s", "%d", "%%", "% s", "% 2)")
+ * output per cell:          "#<index> out=<-|d|w|e|f...> cond=N args=N val=N mark=N ctl=<fall|ret|retv|exit> txt=<ok|BAD|->"
  *                           or "#<index> FAULT:signal:N ..." when the child is killed
  * out: classes of the lines the child wrote to stderr: w/e/f = the "<prog>:  Warning:  " / "Error:" /
- * "FATAL:" lines of msgs.c, d = anything else (debugging text). */
+ * "FATAL:" lines of msgs.c, d = anything else (debugging text).
+ * txt: the use has a text that must appear literally in whatever it logs (the stringified condition of
+ * ASSERT/REQUIRE as the preprocessor spells it, the formatted message of D_X/DPRINTFn/the primitives):
+ * ok = something was logged and the text is in it, BAD = something was logged without it, - = nothing
+ * logged or the use has no such text. */
 #include <config.h>
 #include <libast.h>
 #include <stdio.h>
@@ -33,9 +40,18 @@ static const char *ctl = "exit";
 #define P_COND (n_cond++, g_cond)
 #define P_VAL  (n_val++, 5)
 #define P_ARGS ("probe-msg %d\n", (n_args++, 7))
+#define P_ARGS_TEXT "probe-msg 7"
 #define P_FALLTHROUGH 77
+/* second variant.  The condition is written out at the use (a macro name would be stringified as the
+ * name); P_STR spells it exactly as #x does inside the library's macros. */
+#define P_STR(x) #x
+/* (the condition itself, COND2, is spelled out in the generated c20_uses.h) */
+#define P_ARGS2 ("probe-arg [%s] %d%% [%-4s] %%s\n", "100%s %d %% % s %lu", (n_args++, 7), "%x")
+#define P_ARGS2_TEXT "probe-arg [100%s %d %% % s %lu] 7% [%x  ] %s"
 
-struct use { const char *name; int returns_int; void (*vf)(void); int (*nf)(void); };
+/* vf/nf, expect: first variant; vf2/nf2, expect2: second variant (NULL function = same as the first) */
+struct use { const char *name; int returns_int; void (*vf)(void); int (*nf)(void); const char *expect;
+             void (*vf2)(void); int (*nf2)(void); const char *expect2; };
 
 #include "c20_uses.h"
 
@@ -47,6 +63,9 @@ static void report(void)
 
 static void child(const struct use *u, unsigned long r, int silent, int name, int cond, int outfd, const char *errpath)
 {
+    int second = (cond >> 1) & 1;
+    void (*vf)(void) = (second && u->vf2) ? u->vf2 : u->vf;
+    int (*nf)(void) = (second && u->nf2) ? u->nf2 : u->nf;
     struct rlimit rl;
     int efd;
     static char badbuf[32];
@@ -59,25 +78,25 @@ static void child(const struct use *u, unsigned long r, int silent, int name, in
     close(efd);
     close(outfd);
     atexit(report);
-    g_cond = cond;
+    g_cond = cond & 1;
     DEBUG_LEVEL = (unsigned int) r;
     libast_set_silent(silent ? TRUE : FALSE);
     if (!name) libast_program_name = NULL;
     if (u->returns_int) {
-        int v = u->nf();
+        int v = nf();
         if (fell) ctl = "fall";
         else if (v == 5) ctl = "retv";
         else { snprintf(badbuf, sizeof(badbuf), "retv:BAD:%d", v); ctl = badbuf; }
         if (fell && v != P_FALLTHROUGH) ctl = "fall:BAD";
     } else {
-        u->vf();
+        vf();
         ctl = fell ? "fall" : "ret";
     }
     done = 1;
     exit(0);
 }
 
-static void classify(const char *errpath, char *out)
+static void classify(const char *errpath, char *out, const char *expect, const char **txt)
 {
     static char buf[1 << 16];
     int fd = open(errpath, O_RDONLY), d = 0, w = 0, e = 0, f = 0;
@@ -88,6 +107,7 @@ static void classify(const char *errpath, char *out)
         close(fd);
     }
     buf[n] = 0;
+    *txt = (n > 0 && expect) ? (strstr(buf, expect) ? "ok" : "BAD") : "-";
     for (p = buf; *p; p = nl ? nl + 1 : p + strlen(p)) {
         nl = strchr(p, '\n');
         if (nl) *nl = 0;
@@ -114,6 +134,7 @@ int main(int argc, char **argv)
     snprintf(errpath, sizeof(errpath), "%s.err.%d", argv[1], (int) getpid());
     while (fgets(line, sizeof(line), f)) {
         char macro[128], res[256], outs[8];
+        const char *txt = "-", *expect;
         long idx;
         unsigned long r;
         int silent, name, cond, fds[2], st, i;
@@ -140,15 +161,16 @@ int main(int argc, char **argv)
         res[n] = 0;
         if (n && res[n - 1] == '\n') res[n - 1] = 0;
         waitpid(pid, &st, 0);
-        classify(errpath, outs);
+        expect = ((cond >> 1) & 1) ? u->expect2 : u->expect;
+        classify(errpath, outs, expect, &txt);
         if (WIFSIGNALED(st)) {
             printf("FAULT:signal:%d out=%s %s\n", WTERMSIG(st), outs, res);
         } else {
             int code = WEXITSTATUS(st);
             int want = strstr(res, "ctl=exit") ? 255 : 0;     /* libast_fatal_error: exit(-1) */
             if (!n) printf("FAULT:exit:%d out=%s (no report)\n", code, outs);
-            else if (code != want) printf("out=%s %s status=%d\n", outs, res, code);
-            else printf("out=%s %s\n", outs, res);
+            else if (code != want) printf("out=%s %s txt=%s status=%d\n", outs, res, txt, code);
+            else printf("out=%s %s txt=%s\n", outs, res, txt);
         }
         fflush(stdout);
     }
